@@ -1,0 +1,227 @@
+//go:build verif
+
+package fontscan
+
+import (
+	"bytes"
+	"compress/gzip"
+	"fmt"
+	"io"
+	"log"
+	"math"
+
+	"github.com/go-text/typesetting/font"
+	"github.com/go-text/typesetting/language"
+)
+
+// Verification hooks for property C16 (font index persistence, corruption, incremental refresh).
+// Add-only: nothing here is compiled without the `verif` build tag.
+
+// VerifPage mirrors runePage.
+type VerifPage struct {
+	Ref uint16    `json:"ref"`
+	Set [8]uint32 `json:"set"`
+}
+
+// VerifFootprint mirrors the serialized part of Footprint; floats are carried as their bit patterns.
+type VerifFootprint struct {
+	File     string      `json:"file"`
+	Index    uint16      `json:"index"`
+	Instance uint16      `json:"instance"`
+	Family   string      `json:"family"`
+	Runes    []VerifPage `json:"runes"`
+	Scripts  []uint32    `json:"scripts"`
+	Langs    [8]uint64   `json:"langs"`
+	Style    uint8       `json:"style"`
+	Weight   uint32      `json:"weight"`  // math.Float32bits
+	Stretch  uint32      `json:"stretch"` // math.Float32bits
+}
+
+// VerifFile mirrors fileFootprints.
+type VerifFile struct {
+	Path       string           `json:"path"`
+	ModTime    int64            `json:"mod_time"`
+	Footprints []VerifFootprint `json:"footprints"`
+}
+
+// VerifIndex mirrors systemFontsIndex.
+type VerifIndex []VerifFile
+
+func (vf VerifFootprint) internal() Footprint {
+	var fp Footprint
+	fp.Location.File = vf.File
+	fp.Location.Index = vf.Index
+	fp.Location.Instance = vf.Instance
+	fp.Family = vf.Family
+	if vf.Runes != nil {
+		fp.Runes = make(RuneSet, len(vf.Runes))
+		for i, p := range vf.Runes {
+			fp.Runes[i] = runePage{ref: p.Ref, set: pageSet(p.Set)}
+		}
+	}
+	if vf.Scripts != nil {
+		fp.Scripts = make(ScriptSet, len(vf.Scripts))
+		for i, s := range vf.Scripts {
+			fp.Scripts[i] = language.Script(s)
+		}
+	}
+	fp.Langs = LangSet(vf.Langs)
+	fp.Aspect = font.Aspect{
+		Style:   font.Style(vf.Style),
+		Weight:  font.Weight(math.Float32frombits(vf.Weight)),
+		Stretch: font.Stretch(math.Float32frombits(vf.Stretch)),
+	}
+	return fp
+}
+
+func verifFootprint(fp Footprint) VerifFootprint {
+	out := VerifFootprint{
+		File: fp.Location.File, Index: fp.Location.Index, Instance: fp.Location.Instance,
+		Family: fp.Family, Langs: [8]uint64(fp.Langs),
+		Style:   uint8(fp.Aspect.Style),
+		Weight:  math.Float32bits(float32(fp.Aspect.Weight)),
+		Stretch: math.Float32bits(float32(fp.Aspect.Stretch)),
+	}
+	out.Runes = make([]VerifPage, len(fp.Runes))
+	for i, p := range fp.Runes {
+		out.Runes[i] = VerifPage{Ref: p.ref, Set: [8]uint32(p.set)}
+	}
+	out.Scripts = make([]uint32, len(fp.Scripts))
+	for i, s := range fp.Scripts {
+		out.Scripts[i] = uint32(s)
+	}
+	return out
+}
+
+func (ix VerifIndex) internal() systemFontsIndex {
+	if ix == nil {
+		return nil
+	}
+	out := make(systemFontsIndex, len(ix))
+	for i, f := range ix {
+		out[i].path = f.Path
+		out[i].modTime = timeStamp(f.ModTime)
+		for _, fp := range f.Footprints {
+			out[i].footprints = append(out[i].footprints, fp.internal())
+		}
+	}
+	return out
+}
+
+func verifIndex(ix systemFontsIndex) VerifIndex {
+	out := make(VerifIndex, len(ix))
+	for i, f := range ix {
+		out[i].Path = f.path
+		out[i].ModTime = int64(f.modTime)
+		out[i].Footprints = make([]VerifFootprint, len(f.footprints))
+		for j, fp := range f.footprints {
+			out[i].Footprints[j] = verifFootprint(fp)
+		}
+	}
+	return out
+}
+
+// VerifSerializeFile is systemFontsIndex.serializeTo: the bytes of the (gzip) cache file.
+func VerifSerializeFile(ix VerifIndex) ([]byte, error) {
+	var buf bytes.Buffer
+	err := ix.internal().serializeTo(&buf)
+	return buf.Bytes(), err
+}
+
+// VerifSerializePayload is systemFontsIndex.serializeTo with the gzip layer removed:
+// the uncompressed payload the writer handed to gzip.
+func VerifSerializePayload(ix VerifIndex) ([]byte, error) {
+	file, err := VerifSerializeFile(ix)
+	if err != nil {
+		return nil, err
+	}
+	r, err := gzip.NewReader(bytes.NewReader(file))
+	if err != nil {
+		return nil, err
+	}
+	return io.ReadAll(r)
+}
+
+// VerifDeserializeFile is deserializeIndex on the bytes of a cache file.
+func VerifDeserializeFile(file []byte) (VerifIndex, error) {
+	ix, err := deserializeIndex(bytes.NewReader(file))
+	if err != nil {
+		return nil, err
+	}
+	return verifIndex(ix), nil
+}
+
+// VerifDeserializePayload is deserializeIndex on an uncompressed payload (wrapped in a fresh,
+// intact gzip stream so that the reader sees exactly these bytes followed by EOF).
+func VerifDeserializePayload(payload []byte) (VerifIndex, error) {
+	var buf bytes.Buffer
+	w := gzip.NewWriter(&buf)
+	if _, err := w.Write(payload); err != nil {
+		return nil, err
+	}
+	if err := w.Close(); err != nil {
+		return nil, err
+	}
+	return VerifDeserializeFile(buf.Bytes())
+}
+
+// VerifSerializeToPath / VerifDeserializeFromPath are serializeToFile / deserializeIndexFile.
+func VerifSerializeToPath(ix VerifIndex, cachePath string) error {
+	return ix.internal().serializeToFile(cachePath)
+}
+
+func VerifDeserializeFromPath(cachePath string) (VerifIndex, error) {
+	ix, err := deserializeIndexFile(cachePath)
+	if err != nil {
+		return nil, err
+	}
+	return verifIndex(ix), nil
+}
+
+type verifLogger struct{}
+
+func (verifLogger) Printf(format string, args ...interface{}) {}
+
+// VerifScan is scanFontFootprints with `prev` as the current index.
+func VerifScan(prev VerifIndex, dirs ...string) (VerifIndex, error) {
+	ix, err := scanFontFootprints(verifLogger{}, prev.internal(), dirs...)
+	if err != nil {
+		return nil, err
+	}
+	return verifIndex(ix), nil
+}
+
+// VerifRefresh follows refreshSystemFontsIndex on explicit directories: read the cache file
+// (any error means "start from scratch"), scan incrementally, write the cache file back.
+// DefaultFontDirectories and assertValid (at least one loadable face) are left out.
+func VerifRefresh(cachePath string, dirs ...string) (VerifIndex, error) {
+	currentIndex, _ := deserializeIndexFile(cachePath)
+	updatedIndex, err := scanFontFootprints(verifLogger{}, currentIndex, dirs...)
+	if err != nil {
+		return nil, fmt.Errorf("scanning system fonts: %s", err)
+	}
+	if err = updatedIndex.serializeToFile(cachePath); err != nil {
+		return nil, fmt.Errorf("updating cache: %s", err)
+	}
+	return verifIndex(updatedIndex), nil
+}
+
+// VerifIgnoreFontFile is ignoreFontFile.
+func VerifIgnoreFontFile(name string) bool { return ignoreFontFile(name) }
+
+// VerifQuery loads the index into a fresh FontMap as UseSystemFonts does and resolves a face
+// candidate list for `family` with the given style (SetQuery, buildCandidates); it reports a panic of the query path as a string.
+func VerifQuery(ix VerifIndex, family string, style uint8) (panicked string) {
+	defer func() {
+		if p := recover(); p != nil {
+			panicked = fmt.Sprint(p)
+		}
+	}()
+	fm := NewFontMap(log.New(io.Discard, "", 0))
+	fm.appendFootprints(ix.internal().flatten()...)
+	fm.built = false
+	fm.lru.Clear()
+	fm.SetQuery(Query{Families: []string{family}, Aspect: font.Aspect{Style: font.Style(style)}})
+	fm.buildCandidates()
+	return ""
+}
